@@ -123,9 +123,10 @@ class Deduping(DNAGenerator):
       attempts += 1
     if attempts == self.max_proposal_attempts:
       raise StopIteration()
-    if attempts:
+    if attempts or 'dedup_skipped' in dna.metadata:
       # Remember how many inner proposals were dropped so `recover` can
-      # advance the inner generator by the same amount.
+      # advance the inner generator by the same amount (overwriting a count
+      # left by a Deduping nested deeper in the inner generator).
       dna.set_metadata('dedup_skipped', attempts)
     if not self.needs_feedback:
       self._add_dna_to_cache(dna, None)
